@@ -14,30 +14,21 @@ Context {F : Type}.
 Variable pf : list N -> option F.
 Variable ff : F -> list N.
 
-(** encodeJSON(w, v.value) *)
-Definition encode_bval (b : @bval F) : list N :=
-  match b with
-  | BNone => lit_null
-  | BStr bs => json_quote bs
-  | BFloat (Some f) => ff f
-  | BFloat None => [48]
+Definition sign_of (lead : option (list N)) : list N :=
+  match lead with
+  | Some l => if list_N_eqb l [45] then [45] else []
+  | None => []
   end.
 
-Definition encode_basic (lead : option (list N)) (ty : ttype) (lit : list N)
-           (b : @bval F) : option (list N) :=
-  let sign := match lead with
-              | Some l => if list_N_eqb l [45] then [45] else []
-              | None => []
-              end in
-  match ty with
-  | TInt => option_map (app sign) (int_json lit)
-  | TFloat | TString => Some (sign ++ encode_bval b)
-  | _ => None
-  end.
+(** encodeJSON of a float64 value (0 on the error path). *)
+Definition encode_float (f : option F) : list N :=
+  match f with Some x => ff x | None => [48] end.
 
-Definition encode_key (k : @okey F) : list N :=
-  if ttype_eqb (kty k) TIdent then json_quote (utf8_encode (klit k))
-  else encode_bval (kval k).
+Definition encode_key (k : okey) : list N :=
+  match k with
+  | KIdent lit => json_quote (utf8_encode lit)
+  | KStr _ bs => json_quote bs
+  end.
 
 Fixpoint join_opt (sep : list N) (l : list (option (list N))) : option (list N) :=
   match l with
@@ -54,8 +45,10 @@ Fixpoint encode_value (v : @value F) : option (list N) :=
   match v with
   | VNil => None
   | VNull => Some lit_null
-  | VBool lit => Some lit
-  | VBasic lead ty lit b => encode_basic lead ty lit b
+  | VBool b => Some (if b then lit_true else lit_false)
+  | VStr _ bs => Some (json_quote bs)
+  | VInt lead lit => option_map (app (sign_of lead)) (int_json lit)
+  | VFloat lead _ f => Some (sign_of lead ++ encode_float f)
   | VObject es =>
       option_map (fun body => 123 :: body ++ [125])
         (join_opt [44]
